@@ -222,6 +222,34 @@ Definition creating (p : pc) : bool :=
   | _ => false
   end.
 
+(* ---- cull *)
+Definition cullpc (p : pc) : bool :=
+  match p with
+  | U192 | U193 | U195 | U196 | U197 | U198 | U200 | U201 | U202 | U204 | U205 | U209 | U210 | U214 | U216 => true
+  | _ => false
+  end.
+(* between `del self.cache[id]` and `self.expiredCache[id] = obj`: the key is in neither dict *)
+Definition kabs (p : pc) : bool := match p with U209 | U210 => true | _ => false end.
+(* `obj` is a weak reference to the object that was strong[id] *)
+Definition cobjdef (p : pc) : bool := match p with U205 | U209 | U210 => true | _ => false end.
+(* iterating over the snapshot of the weak keys / of the selected strong keys *)
+Definition wkeys (p : pc) : bool := match p with U196 | U197 | U198 => true | _ => false end.
+Definition wcur (p : pc) : bool := match p with U197 | U198 => true | _ => false end.
+Definition skeys (p : pc) : bool := match p with U201 | U202 | U204 | U205 | U209 | U210 => true | _ => false end.
+Definition scur (p : pc) : bool := match p with U202 | U204 | U205 => true | _ => false end.
+Definition skeyout (p : pc) : bool := match p with U202 | U204 | U205 | U209 | U210 => true | _ => false end.
+
+(* the id a lock holder knows to be absent from the dicts *)
+Definition absent_key (th : thread) : option Z :=
+  if sabs (t_pc th) then Some (t_id th) else if kabs (t_pc th) then Some (t_key th) else None.
+(* the weak entry a lock holder has seen dead and is about to delete *)
+Definition deadw (th : thread) : option Z :=
+  match t_pc th with
+  | F121 => match t_val th with None => Some (t_id th) | Some _ => None end
+  | U198 => Some (t_key th)
+  | _ => None
+  end.
+
 (* the object a lock holder has taken out of one dict and not yet put into the other (I3) *)
 Definition mov_of (th : thread) : option (Z * nat) :=
   match t_pc th with
@@ -247,16 +275,32 @@ Definition registered (s : state) (i : Z) (o : nat) : Prop :=
   dget (s_strong s) i = Some o \/ dget (s_weak s) i = Some o \/
   exists t, t < s_n s /\ mov_of (s_thr s t) = Some (i, o).
 
+(* what a thread inside cull knows *)
+Definition cull_ok (strong weak : dict) (heap : nat -> obj) (th : thread) : Prop :=
+  (kabs (t_pc th) = true -> dget strong (t_key th) = None /\ dget weak (t_key th) = None) /\
+  (cobjdef (t_pc th) = true ->
+     exists o, t_cobj th = Some o /\ o_key (heap o) = t_key th /\ (t_pc th = U205 -> dget strong (t_key th) = Some o)) /\
+  (wkeys (t_pc th) = true ->
+     NoDup (t_keys th) /\ (forall k, In k (t_keys th) -> dget weak k <> None) /\
+     (wcur (t_pc th) = true -> dget weak (t_key th) <> None /\ ~ In (t_key th) (t_keys th))) /\
+  (skeys (t_pc th) = true ->
+     NoDup (t_keys th) /\ (forall k, In k (t_keys th) -> dget strong k <> None) /\
+     (scur (t_pc th) = true -> dget strong (t_key th) <> None) /\
+     (skeyout (t_pc th) = true -> ~ In (t_key th) (t_keys th))) /\
+  (cullpc (t_pc th) = true -> t_cret th = RetCreated ->
+     exists o, t_self th = Some o /\ o_key (heap o) = t_id th).
+
 (* ------------------------------------------------------------------ the operation set of the proved theorem *)
-(* program points of get (hit, miss, missing row, first use), create and expire; cull, the two
+(* program points of get (hit, miss, missing row, first use), create, expire and cull; the two
    expireAll and the loop of sqlmeta.expireAll are outside *)
 Definition core_pc (p : pc) : bool :=
   match p with
   | Idle | SG301 | SG302 | SG303 | SG306 | SG308
-  | F93 | F94 | F102 | F104 | F105 | F106 | F107 | F108 | F109 | F110 | F111 | F112
+  | F93 | F94 | F99 | F100 | F102 | F104 | F105 | F106 | F107 | F108 | F109 | F110 | F111 | F112
   | F114 | F115 | F116 | F117 | F118 | F119 | F121 | F122 | F123 | F124 | F125 | F126
   | M951 | M954 | SP311 | P152 | P153 | M956 | SQ314 | Q162
-  | C1397 | C1400 | SK317 | SK318 | SK319 | SK320 | SK322 | K171 | K172 | K180 | K181
+  | C1397 | C1400 | SK317 | SK318 | SK319 | SK320 | SK322 | K171 | K172 | K177 | K178 | K180 | K181
+  | U192 | U193 | U195 | U196 | U197 | U198 | U200 | U201 | U202 | U204 | U205 | U209 | U210 | U214 | U216
   | X1070 | X1072 | X1074 | X1078 | X1079 | SE325 | SE326 | SE327 | SE328
   | E232 | E234 | E235 | E236 | E237 | E238 | E239 | E241 | X1083 => true
   | _ => false
@@ -270,7 +314,8 @@ Definition created_race (s : state) (t : nat) : bool :=
   let i := t_id (s_thr s t) in
   match dget (s_strong s) i, dget (s_weak s) i with
   | None, None =>
-      negb (forallb (fun t' => Nat.eqb t' t || negb (sabs (t_pc (s_thr s t'))) || negb (Z.eqb (t_id (s_thr s t')) i))
+      negb (forallb (fun t' => Nat.eqb t' t ||
+                                 match absent_key (s_thr s t') with Some k => negb (Z.eqb k i) | None => true end)
                     (seq 0 (s_n s)))
   | _, _ => true
   end.
@@ -286,7 +331,6 @@ Definition guard (s : state) (t : nat) : bool :=
             | o :: _ => core_op o
             | [] => true
             end
-  | F94 | K172 => negb (Z.ltb (s_freq s) (s_cc s))
   | K181 => negb (created_race s t)
   | _ => true
   end.
@@ -305,6 +349,7 @@ Record Inv (s : state) : Prop := {
   inv_w_weak : forall k o, dget (s_weak s) k = Some o -> o < s_nextobj s;
   inv_w_thr : forall t, t < s_n s -> ref_ok s (t_val (s_thr s t)) /\ ref_ok s (t_self (s_thr s t)) /\
                 forall o i e, In (RObj o i e) (t_slots (s_thr s t)) -> o < s_nextobj s;
+  inv_w_cobj : forall t, t < s_n s -> ref_ok s (t_cobj (s_thr s t));
   (* I1: entries are well keyed *)
   inv_key_strong : forall k o, dget (s_strong s) k = Some o -> o_key (s_heap s o) = k;
   inv_key_weak : forall k o, dget (s_weak s) k = Some o -> o_key (s_heap s o) = k;
@@ -336,13 +381,14 @@ Record Inv (s : state) : Prop := {
   inv_ep_le : forall i o e, holder s i o e -> e <= s_epoch s i;
   inv_ident : forall i o o' e, holder s i o e -> holder s i o' e -> o = o';
   inv_reg : forall i o, holder s i o (s_epoch s i) -> registered s i o;
-  (* between the look at the weak dict and the removal of the entry (get, line 117 -> 121): a live
-     referent is the entry; of a dead one nobody holds a result *)
-  inv_f121 : forall t, t < s_n s -> t_pc (s_thr s t) = F121 ->
-               match t_val (s_thr s t) with
-               | Some o => dget (s_weak s) (t_id (s_thr s t)) = Some o
-               | None => forall o, ~ holder s (t_id (s_thr s t)) o (s_epoch s (t_id (s_thr s t)))
-               end;
+  (* between the look at the weak dict and the removal of the entry (get, line 117 -> 121; cull,
+     line 197 -> 198): a live referent is the entry; of a dead one nobody holds a result *)
+  inv_f121 : forall t o, t < s_n s -> t_pc (s_thr s t) = F121 -> t_val (s_thr s t) = Some o ->
+               dget (s_weak s) (t_id (s_thr s t)) = Some o;
+  inv_deadw : forall t k, t < s_n s -> deadw (s_thr s t) = Some k ->
+               dget (s_weak s) k <> None /\ forall o, ~ holder s k o (s_epoch s k);
+  (* cull: the assertions of the lock holder inside cull (and of a cull called from created) *)
+  inv_cull : forall t, t < s_n s -> cull_ok (s_strong s) (s_weak s) (s_heap s) (s_thr s t);
   (* no exception other than the documented not-found; the run is inside the model *)
   inv_noexc : forall t x, t < s_n s -> In (RExc x) (t_slots (s_thr s t)) -> x = NotFound;
   inv_unmod : s_unmod s = false;
